@@ -207,3 +207,5 @@ def run(rep, programs):
     from props import c06
     c06.r_init_coverage(rep, prog)
     c01.r_toggle_dispatch(rep, prog)
+    from props import c03
+    c03.r_split_order(rep, prog)      # a partial free of a whole huge frame splits exactly that huge frame
